@@ -522,8 +522,12 @@ def shrink(trace, v0, budget=30):
   want = vkey(v0)
   used = [0]
 
+  import time as _time
+  t_end = _time.time() + 240.0     # wall budget: minimisation must not cost
+                                   # the violation (pool caps) or the clock
+
   def still(t):
-    if used[0] >= budget:
+    if used[0] >= budget or _time.time() > t_end:
       return False
     used[0] += 1
     try:
